@@ -157,4 +157,20 @@ CHECKS = {
         assumptions=COMMON_ASSUME + ["life-cycle checks run in real time with 50-500us polling; only stable states are judged (poller count after bounded settling, "
                                      "counter movement while stopped); a started poller that does not tick in 2000 periods is inconclusive"],
     ),
+    "C09": dict(
+        pkg="c09", race=False, shards=(4, 16), timeout_s=(600, 3000),
+        technique="recording delegate limit + reference fold, DefaultLimiter driven on a synctest virtual clock (exact RTTs / window boundaries), WindowedLimit on explicit timestamps",
+        level_text="A recording core.Limit receives what the limiter/windowed limit delivers; a reference fold of the qualifying completions since the last "
+                   "delivery runs beside it. Separate sub-oracles: delivered values differ from fold (min RTT resp. mean RTT, max in-flight, drop flag iff any "
+                   "drop in the window), delivery of an unready window, delivery before the previous window's period elapsed, ready window not "
+                   "delivered at a qualifying completion, delivery triggered by an ignored / below-threshold completion. Exploration over seeded histories.",
+        require=["default_completions", "default_windows_delivered", "default_nonqualifying_completions", "default_windows_with_drop_before_last_completion",
+                 "windowed_samples", "windowed_windows_delivered", "windowed_samples_below_threshold", "windowed_windows_with_drop_before_last_sample",
+                 "windowed_drop_only_windows_delivered"],
+        rule="default: 150-650 acquire/sleep/complete steps with 1-6 holders, outcomes success/ignore/dropped, durations 1ns-8ms, windowSize 10-30, "
+             "min/max window 1us-8s, threshold 0-1ms; windowed: 100-600 samples with explicit start/rtt/in-flight/drop; non-trivial = at least two windows "
+             "delivered; distinct = distinct (config, length, deliveries).",
+        assumptions=COMMON_ASSUME + ["windowed limit readiness = closing sample's in-flight > windowSize (the rule the existing suite pins); a drop-only window's period may be anything in [minWindow,maxWindow]",
+                                     "durations >= 1ns (DESIGN 8)"],
+    ),
 }
